@@ -40,12 +40,6 @@ pub trait VSink: Sized {
     ;
 }
 
-/// anything that derefs to a byte slice at the call sites of write_all (&[u8], &Vec<u8>, &[u8; N], &Tag)
-pub trait VAsBytes { spec fn bytes(&self) -> Seq<u8>; }
-impl VAsBytes for [u8] { open spec fn bytes(&self) -> Seq<u8> { self@ } }
-impl VAsBytes for Vec<u8> { open spec fn bytes(&self) -> Seq<u8> { self@ } }
-impl<const N: usize> VAsBytes for [u8; N] { open spec fn bytes(&self) -> Seq<u8> { self@ } }
-
 // Write::write_all (std's documented loop over write, retrying on Interrupted; Ok(0) from write is WriteZero)
 #[verifier::external_body]
 pub fn vio_write_all<W: VSink, B: VAsBytes + ?Sized>(w: &mut W, buf: &B) -> (r: std::io::Result<()>)
